@@ -345,6 +345,34 @@ func TestStateMachine(t *testing.T) {
 				}
 				afterStep(touched...)
 			},
+			"removeMany": func(t *rapid.T) {
+				// the mirror image of addMany: long runs of removals, of present ranges, of ranges already removed and of
+				// ranges that never were there - often more removals than there are ranges
+				if len(s.mentioned) == 0 {
+					t.Skip("nothing mentioned yet")
+				}
+				n := rapid.SampledFrom([]int{3, 10, 40, 120, 300}).Draw(t, "n")
+				again := rapid.IntRange(0, 3).Draw(t, "repeatEvery")
+				start := rapid.IntRange(0, len(s.mentioned)-1).Draw(t, "start")
+				keep := rapid.IntRange(0, 3).Draw(t, "keepEvery") // spare every k-th range so that something stays in the filter
+				var touched []prefix
+				for i := 0; i < n; i++ {
+					p := s.mentioned[(start+i)%len(s.mentioned)]
+					if keep > 0 && (start+i)%(keep+3) == 0 {
+						continue
+					}
+					fail(s.remove(p.net|(uint32(i)&^mask(p.ones)), p.ones))
+					if again > 0 && i%(again+1) == 0 {
+						fail(s.remove(p.net, p.ones)) // a second time: it is absent now
+					}
+					if i < 3 || i == n-1 {
+						touched = append(touched, p)
+					}
+				}
+				fail(s.remove(rapid.Uint32().Draw(t, "neverThere"), rapid.IntRange(1, 32).Draw(t, "ones")))
+				afterStep(touched...)
+				fail(s.probeAll())
+			},
 			"invalid": func(t *rapid.T) {
 				fail(s.invalid(rapid.IntRange(0, 50).Draw(t, "which"), rapid.Bool().Draw(t, "remove")))
 				fail(s.probeAll()) // nothing changed
